@@ -11,11 +11,17 @@ def run(ctx):
                         timeout=ctx.pick(600, 3000))
     ctx.check_coverage(r)
     ctx.exhaustive = True
-    rs = ctx.tlc("consensus", "MC_CsAbstract", "MC_CsAbstract.cfg", constants=dict(MaxRound=3, MaxCrash=1, FixWal="FALSE"),
-                 expect_violation=True, count=False, label="sensitivity: lock round not persisted on re-lock", timeout=900)
-    if rs.violation != "Agreement":
-        raise vlib.MachineryError("sensitivity check failed: without persisting the lock round TLC must find a disagreement")
-    ctx.notes.append("sensitivity: with the lock WAL written only on a new lock (FixWal=FALSE) TLC finds an Agreement violation")
+    if not ctx.quick():
+        rs = ctx.tlc("consensus", "MC_CsAbstract", "MC_CsAbstract.cfg", constants=dict(MaxRound=3, MaxCrash=1, FixWal="FALSE"),
+                     expect_violation=True, count=False, label="sensitivity: lock round not persisted on re-lock", timeout=1800)
+        if rs.violation != "Agreement":
+            raise vlib.MachineryError("sensitivity check failed: without persisting the lock round TLC must find a disagreement")
+        ctx.notes.append("sensitivity: with the lock WAL written only on a new lock (FixWal=FALSE) TLC finds an Agreement violation")
+        # the composition of contract-abiding validators, Byzantine ones and an asynchronous network: simulated
+        rc = ctx.tlc("consensus", "CsContractSys", "CsContractSys.cfg", constants=dict(MaxRound=2, MaxMsgs=14),
+                     simulate="num=%d" % 20000, depth=60, seed=ctx.seed, count=False, timeout=1800,
+                     label="CsContractSys simulation (Agreement)")
+        ctx.notes.append("CsContractSys: %d states visited by simulation, Agreement held" % rc.generated)
     # 2./3./4. schedules -> real engines -> CsContract
     if ctx.replay:
         beh = [json.load(open(ctx.replay))["detail"]["behaviour"]]
@@ -23,6 +29,13 @@ def run(ctx):
         beh = cscommon.directed(ctx) + cscommon.env_behaviours(ctx, ctx.pick(40, 400), max_crash=2, max_ops=ctx.pick(14, 18))
     recs = cscommon.run_nodes(ctx, beh, cscommon.C01_KINDS, shards=ctx.pick(14, 16))
     ctx.absorb(recs)
+    # several real engines under one schedule: Agreement over the real Finalize calls + CsContract per engine
+    if not ctx.replay:
+        crecs = cscommon.run_nodes(ctx, cscommon.cluster_schedules(ctx), cscommon.C01_KINDS, shards=1, test="TestCluster")
+        ctx.absorb(crecs)
+        for rr in crecs:
+            if rr.get("status") == "skip":
+                ctx.notes.append("cluster schedule not realizable as compiled: %s" % rr.get("what"))
     for rr in recs[:3]:
         if rr.get("sig"):
             ctx.sample(dict(case=rr["case"], signed=rr["sig"]))
